@@ -210,18 +210,19 @@ def totalVolume [Add K] [Mul K] [OfNat K 0] [OfNat K 1] [NatCast K] (subs : List
   | .none => totalVolumeLoop subs (rangeInt subs.length) 1
   | .list l => totalVolumeLoop subs l 1
 
-/-- the loop of Field.weight: scalar volumes are collected in `fct`, non-scalar ones are broadcast along
-    their sub-domain and multiplied in place (`aout *= wgt**power`; NumPy refuses that for integer data) -/
-def weightLoop [Mul K] [OfNat K 0] [OfNat K 1] [Inv K] (subs : List (SubDom K)) (dt : DT) (power : Int) :
-    List Nat → K → (Idx → K) → Except String (K × (Idx → K))
-  | [], fct, a => .ok (fct, a)
-  | ind :: t, fct, a =>
+/-- the loop of Field.weight: scalar volumes are collected in `fct`, non-scalar ones are broadcast along their
+    sub-domain and multiplied out of place (`aout = aout * wgt**power`, so integer data becomes float —
+    this is the code repaired by fixes/C06_int_weight_nonscalar_dvol.diff; the unrepaired `aout *= wgt**power`
+    raises UFuncTypeError for integer data) -/
+def weightLoop [Mul K] [OfNat K 0] [OfNat K 1] [Inv K] (subs : List (SubDom K)) (power : Int) :
+    List Nat → K → DT → (Idx → K) → Except String (K × DT × (Idx → K))
+  | [], fct, dt, a => .ok (fct, dt, a)
+  | ind :: t, fct, dt, a =>
     match (subs.getD ind default).dvol with
     | .none => .error "AttributeError"
-    | .scalar w => weightLoop subs dt power t (fct * w) a
+    | .scalar w => weightLoop subs power t (fct * w) dt a
     | .vector w =>
-      if dt ≤ DT.int then .error "UFuncTypeError" else
-      weightLoop subs dt power t fct (fun idx => a idx * ipow (w.getD (idx.getD ind 0) 0) power)
+      weightLoop subs power t fct (max dt DT.float) (fun idx => a idx * ipow (w.getD (idx.getD ind 0) 0) power)
 
 /-- Field.weight(power, spaces) -/
 def weight [Mul K] [OfNat K 0] [OfNat K 1] [Inv K] [DecidableEq K] (f : Fld K) (power : Int) (sp : Spaces) :
@@ -229,12 +230,12 @@ def weight [Mul K] [OfNat K 0] [OfNat K 1] [Inv K] [DecidableEq K] (f : Fld K) (
   match parseSpaces sp f.subs.length with
   | .error e => .error e
   | .ok l =>
-    match weightLoop f.subs f.dt power l 1 f.val with
+    match weightLoop f.subs power l 1 f.dt f.val with
     | .error e => .error e
-    | .ok (fct, a) =>
+    | .ok (fct, dt, a) =>
       let fct := ipow fct power
-      if fct = 1 then .ok { f with val := a }
-      else .ok { f with dt := max f.dt DT.float, val := fun idx => a idx * fct }
+      if fct = 1 then .ok { f with dt := dt, val := a }
+      else .ok { f with dt := max dt DT.float, val := fun idx => a idx * fct }
 
 /-- result of Field._contraction_helper: the field on the sub-domains that are not contracted -/
 def contractFld (f : Fld K) (l : List Nat) (dt : DT) (v : List Bool → List Nat → (Idx → K) → Idx → K) : Fld K :=
